@@ -281,14 +281,16 @@ def normalise_function(fnode, ref: dict, parts=("locals", "eqs", "ifs")) -> int:
     # ---- 1. locals ------------------------------------------------------------------------
     cur = local_names(fnode) if "locals" in parts else []
     refl = ref.get("locals", [])
-    unknown = [x for x in cur if x not in refl and x != "_"]
-    missing = [x for x in refl if x not in cur and x != "_"]
+    unknown = [x for x in cur if x not in refl]
+    missing = [x for x in refl if x not in cur]
     if unknown and missing:
         used = all_names(fnode)
         mapping = {}
         for u, m in zip(unknown, missing):
             if m in used:
                 continue
+            if m == "_" and not u.startswith("_"):
+                continue   # a named local is never mapped onto the throwaway name
             mapping[u] = m
         if mapping:
             own = set(id(n) for n in _own_nodes(fnode))
@@ -461,7 +463,7 @@ def normalise_module(tree, module_name: str) -> int:
                         pass
             n += normalise_function(fn, r)
             if "guards" in r:
-                for step in (N2.unguard, N2.guardify, N2.emptiness_forms):
+                for step in (N2.contract_known_ifexp, N2.contract_known_loops, N2.unguard, N2.guardify, N2.emptiness_forms):
                     try:
                         n += step(fn, r)
                     except Exception:   # pragma: no cover
